@@ -1365,6 +1365,13 @@ fn service(sim: &Rc<RefCell<Sim>>, th: &mut abra_core::vm::VmGreenThread, func: 
             HostFunctionRet::EchoArr(out).into_vm(th);
             r
         }
+        HostFunctionArgs::EchoTwo(a, b, c) => {
+            let r = format!("echo_two({a:?},{b:?},{c})");
+            let mut out: Vec<String> = b.into_iter().rev().collect();
+            out.push(format!("{}:{c}", a.iter().sum::<i64>()));
+            HostFunctionRet::EchoTwo(out).into_vm(th);
+            r
+        }
         HostFunctionArgs::EchoArr2(a) => {
             let r = format!("echo_arr2({a:?})");
             let out: Vec<Vec<i64>> = a.into_iter().rev().collect();
